@@ -333,6 +333,11 @@ impl NewCase {
 
         let ok_events: Vec<&EntEvent> = o.ent.iter().filter(|e| e.ok).collect();
         let fail_events: Vec<&EntEvent> = o.ent.iter().filter(|e| !e.ok).collect();
+        // EINTR is not "the source reports failure": getentropy(3) never surfaces it (glibc retries
+        // inside) and a caller of getrandom(2) is expected to retry. An interrupted request may be
+        // retried or may fail the command — both are fine; what is printed is still held to the
+        // provenance clause, so a retry loop that gives up and uses an unfilled buffer is caught.
+        let hard_fails: Vec<&EntEvent> = fail_events.iter().copied().filter(|e| e.errno != 4).collect();
         let stdout = o.stdout_str();
         let printed_anything = !o.stdout.is_empty();
 
@@ -521,7 +526,12 @@ impl NewCase {
         if single_searcher {
             // deterministic: the first decisive delivery decides
             let mut expected: Option<Result<String, i32>> = None;
+            let mut interrupted = false;
             for ev in &o.ent {
+                if !ev.ok && ev.errno == 4 {
+                    interrupted = true;
+                    continue;
+                }
                 if !ev.ok {
                     expected = Some(Err(ev.errno));
                     break;
@@ -537,6 +547,9 @@ impl NewCase {
                     break;
                 }
             }
+            // after an interrupted request both continuing and failing are legitimate
+            let expected = if interrupted && !matches!(expected, Some(Err(_))) { None } else { expected };
+            let skip_none_clauses = interrupted;
             match expected {
                 Some(Ok(want)) => {
                     // A qualifying value was delivered before any failure: the command must
@@ -579,6 +592,10 @@ impl NewCase {
                         );
                     }
                 }
+                None if skip_none_clauses => {
+                    // an interrupted request: continuing and failing are both fine; a printed
+                    // phrase is judged by the provenance, validity and prefix clauses above
+                }
                 None => {
                     if o.status.ok() && !crashed {
                         rep.violate(
@@ -618,7 +635,7 @@ impl NewCase {
                 // report the failure was done) before the winning value was even delivered to
                 // anyone, the command knew of the failure before any result existed and must fail.
                 // ... nor may the searcher it was reported to simply carry on drawing
-                for f in &fail_events {
+                for f in &hard_fails {
                     if let Some(later) = o.ent.iter().find(|ev| ev.task == f.task && ev.seq > f.seq)
                     {
                         rep.violate(
@@ -641,7 +658,7 @@ impl NewCase {
                         .filter(|ev| ev.ok && carries(&ev.bytes, &hexe))
                         .map(|ev| ev.step)
                         .min();
-                    for f in &fail_events {
+                    for f in &hard_fails {
                         let finished_at = h
                             .finished_before_exit
                             .iter()
